@@ -163,6 +163,11 @@ type WorkerResult struct {
 //go:linkname runtimeVerifSeed runtime.verifSeed
 func runtimeVerifSeed(seed uint64, noRetake bool)
 
+// GoID is the id of the calling goroutine.
+//
+//go:linkname GoID runtime.verifGoid
+func GoID() uint64
+
 // RuntimeDraws is the number of values the runtime drew from its random source since the run started.
 //
 //go:linkname RuntimeDraws runtime.verifDraws
